@@ -57,6 +57,8 @@ const CASE_TIMEOUT: Duration = Duration::from_secs(60);
 /// address-space limit of a worker (KiB, `ulimit -v`)
 const RLIMIT_AS_KIB: u64 = 2 * 1024 * 1024;
 const BATCH: usize = 40;
+/// hang/abort incidents per domain after which no further batches are started
+const MAX_INCIDENTS: usize = 6;
 /// Work that the property's bounds (objects, repeats, pixels) do NOT bound: total slider *time*
 /// (catch: one tiny droplet per <= 80 ms, osu!: one tick per beat_len / tick_rate) and the number of
 /// strain sections `span / (clock_rate * section_length)`.  Above these limits a case / a settings
@@ -1567,8 +1569,10 @@ fn run_alone(exe: &Path, seed: u64, domain: Domain, idx: usize, dir: &Path, n_se
 fn run_domain(run: &mut Run, exe: &Path, seed: u64, domain: Domain, n: usize, dir: &Path, n_settings: usize, jobs: usize, label: &str) -> Vec<String> {
     let mut pending: Vec<(usize, usize)> = Vec::new();
     let mut lo = 0;
+    // the corpus (regression inputs) runs one case per worker so that hangs time out concurrently
+    let singles = if domain == Domain::Adv { corpus().len().min(n) } else { 0 };
     while lo < n {
-        let hi = (lo + BATCH).min(n);
+        let hi = if lo < singles { lo + 1 } else { (lo + BATCH).min(n) };
         pending.push((lo, hi));
         lo = hi;
     }
@@ -1638,7 +1642,13 @@ fn run_domain(run: &mut Run, exe: &Path, seed: u64, domain: Domain, n: usize, di
                     format!("worker {}; stderr: {}", finished.map(|f| f.1).unwrap_or_default(), sanitize(&err))
                 };
                 incidents.push((bad, what, detail));
-                if bad + 1 < w.hi {
+                if incidents.len() >= MAX_INCIDENTS {
+                    // the violation is established; do not spend hours on further hangs
+                    if !pending.is_empty() {
+                        run.notes.push(format!("{label}{}: search stopped after {MAX_INCIDENTS} hang/abort incidents, {} batches not run", domain.name(), pending.len()));
+                    }
+                    pending.clear();
+                } else if bad + 1 < w.hi {
                     pending.push((bad + 1, w.hi));
                 }
             }
